@@ -108,6 +108,9 @@ def specStep (ttl : Nat) (s : SpecSt) (r : Bool) : Ev → SpecSt
     | none => s
   -- session manager shutdown: every stream of the node is closed (the adapters' `CloseConnection` calls follow)
   | .shutdown n => { s with latest := LMap.dropNode s.latest n, down := n :: s.down }
+  -- a lookup changes nothing, however its two storage round trips interleave with other events
+  | .lookBegin _ _ => s
+  | .lookEnd _ _ => s
   | .tick dt => { s with now := s.now + dt }
 
 /-- "not connected" (`FindClientNode(0)` is refused as invalid). -/
